@@ -15,6 +15,10 @@ def plan(ctx):
 DIRECTED = [
     ('ecdsa', 'xy-r1-k1', {'s1': 'healthyA', 's2': 'samexy'}, [{'all': False, 'check': 'CheckIssuerKey', 'batch': ['s1', 's2']}]),
     ('ecdsa', 'xy-k1-r1', {'s1': 'healthyA', 's2': 'samexy'}, [{'all': False, 'check': 'CheckIssuerKey', 'batch': ['s2', 's1']}]),
+    ('ecdsa', 'issuer-severity-history', {'s1': 'close192A', 's2': 'close192B', 's3': 'healthyA'},
+     [{'all': False, 'check': 'CheckIssuerKey', 'batch': ['s1', 's2', 's3']}, {'all': False, 'check': 'CheckIssuerKey', 'batch': ['s1']},
+      {'all': False, 'check': 'CheckIssuerKey', 'batch': ['s3', 's2', 's1']}]),
+    ('rsa', 'mixed-sizes', {'s1': 'small', 's2': 'pattern4096'}, [{'all': False, 'check': 'CheckBitPatterns', 'batch': ['s1', 's2']}]),
     ('rsa', 'rerun', {'s1': 'fermat', 's2': 'healthy', 's3': 'sharedA', 's4': 'sharedB'},
      [{'all': True, 'check': 'ALL', 'batch': ['s1', 's2', 's3', 's4']}, {'all': True, 'check': 'ALL', 'batch': ['s4', 's1']},
       {'all': False, 'check': 'CheckGCD', 'batch': ['s3']}, {'all': False, 'check': 'CheckFermat', 'batch': ['s1', 's1']}]),
